@@ -10,6 +10,8 @@ import (
 	"strings"
 
 	"gitee.com/xuesongtao/protoc-go-valid/valid"
+
+	"verifsim/e2/alt"
 )
 
 // ---- static struct types. Field names are deliberately shared between
@@ -199,6 +201,17 @@ var statics = []typeInfo{
 	{"Quoted", func(v int) interface{} {
 		return &Quoted{Name: []string{"", "x,y", "z", "zzzz"}[v%4], Code: []string{"", "ab", "xabx", "q"}[v%4]}
 	}, []string{""}},
+	// same type NAMES as Pay / User / Item above, other package, other rules
+	{"AltPay", func(v int) interface{} {
+		return &alt.Pay{AppName: strN(v % 8), Amount: float64((v * 3) % 13), Note: strN(v % 6)}
+	}, []string{"", "alipay", "wechat"}},
+	{"AltUser", func(v int) interface{} {
+		return &alt.User{Name: strN((v * 2) % 9), Age: []int{0, 5, 30, 200}[v%4], Phone: phones[v%4], Email: []string{"", "a@b.cn", "bad"}[v%3]}
+	}, []string{"", "v2"}},
+	{"AltItem", func(v int) interface{} {
+		it := mkItem(v)
+		return &alt.Item{Code: it.Code, Count: it.Count, Name: it.Name}
+	}, []string{"", "v2"}},
 }
 
 // ---- dynamic types from reflect.StructOf: i -> a struct type with 1..3
@@ -226,6 +239,11 @@ func dynType(i int) reflect.Type {
 		}
 		if f == 0 {
 			tag += fmt.Sprintf(` id:"%d"`, i)
+		}
+		if !isInt && i%4 == 1 && f == nf-1 {
+			// a rule text that is unique to this type (a regular expression no other type uses):
+			// whatever the library memoises per rule text is cold the first time a process meets this type
+			tag = fmt.Sprintf(`valid:"re='^x{0,%d}$'" v2:"%s"`, 1+(i/4)%200, dynStrRules[r2])
 		}
 		dup := false
 		for _, e := range fields {
